@@ -1,7 +1,7 @@
 (* C05 -- Collection is bounded and spends its budget breadth-first. *)
 From Deep Require Import Base Config Collector CollectorProofs.
 From DeepGen Require Import PCollect.
-From Deep Require Import TieCollect.
+From Deep Require Import PureSupport TieCollect TieTraverse.
 From Coq Require Import Sorted.
 
 (* Budget: a whole snapshot (all frames, then all watches / log fields / captures, one cache)
@@ -118,3 +118,40 @@ Theorem C05_the_code_budget_test_is_the_model :
   forall size mv, gen_check_var_count (Z.of_nat size) (Z.of_nat mv) = negb (mv <? size)%nat.
 Proof. exact tie_check_var_count. Qed.
 Print Assumptions C05_the_code_budget_test_is_the_model.
+
+(* ---- tie by translation: the work-list loop (bfs.breadth_first_search) and what it does with one node
+   (VariableSetProcessor.search_function) as they are in /repo/src NOW compute the model's run ... *)
+Theorem C05_the_code_traversal_is_the_model :
+  forall c h fuel root k,
+  code_traverse c h (S (S fuel)) root k =
+  (core_of (run (S fuel) true c h (mk_st k [root] false)), finished (run (S fuel) true c h (mk_st k [root] false))).
+Proof. exact tie_traverse. Qed.
+Print Assumptions C05_the_code_traversal_is_the_model.
+
+(* ... so the translated loop records breadth first (also when the budget cuts it short), ... *)
+Theorem C05_the_code_is_breadth_first :
+  forall c h fuel cs tbl name o,
+  StronglySorted le (map snd (k_log (fst (code_traverse c h (S (S fuel)) (root_node name o) (core_init cs tbl))))).
+Proof. exact code_bfs. Qed.
+Print Assumptions C05_the_code_is_breadth_first.
+
+(* ... keeps the budget in whatever state it stops, ... *)
+Theorem C05_the_code_keeps_the_budget :
+  forall c h fuel cs tbl name o B, (S (max_vars c) <= B)%nat -> (length cs <= B)%nat ->
+  (length (k_cache (fst (code_traverse c h (S (S fuel)) (root_node name o) (core_init cs tbl)))) <= B)%nat.
+Proof. exact code_budget. Qed.
+Print Assumptions C05_the_code_keeps_the_budget.
+
+(* ... and ends on every heap (cyclic, shared, self-referential) within the model's measure. *)
+Theorem C05_the_code_traversal_ends :
+  forall c h fuel cs tbl name o, (mu c h (init cs tbl name o) <= S fuel)%nat ->
+  snd (code_traverse c h (S (S fuel)) (root_node name o) (core_init cs tbl)) = true.
+Proof. exact code_terminates. Qed.
+Print Assumptions C05_the_code_traversal_ends.
+
+(* not vacuous: on the example above the translated loop records the depths 0, 1, 1, 1 and reports that it was stopped *)
+Theorem C05_the_code_on_the_example :
+  let r := code_traverse lifo_cfg lifo_heap 22 (root_node LOCALS 0) (core_init [] []) in
+  map snd (k_log (fst r)) = [0; 1; 1; 1]%nat /\ snd r = true.
+Proof. vm_compute. split; reflexivity. Qed.
+Print Assumptions C05_the_code_on_the_example.
